@@ -83,7 +83,7 @@ def write_raw(d, enc, r):
 def derived_line(f):
     k = f["kind"]
     if k == "P": return "%s PHASE %s %d" % (f["name"], f["in"], f["shift"])
-    if k == "L": return "%s LINCOM 1 %s %d %d" % (f["name"], f["in"], f["m"], f["b"])
+    if k == "L": return "%s LINCOM 1 %s %s %s" % (f["name"], f["in"], f.get("mc") or f["m"], f.get("bc") or f["b"])
     if k == "B": return "%s BIT %s %d %d" % (f["name"], f["in"], f["bitnum"], f["numbits"])
     if k == "M": return "%s MULTIPLY %s %s" % (f["name"], f["a"], f["b"])
     if k == "X": return "%s MPLEX %s %s %d %d" % (f["name"], f["in"], f["cnt"], f["cval"], f["period"])
@@ -98,6 +98,8 @@ def make_dirfile(d, case):
     for r in case["raws"]:
         t += "%s RAW %s %d\n" % (r["name"], r["type"], case.get("spf", 1))
         write_raw(d, case["enc"], r)
+    for name, v in case.get("consts", {}).items():
+        t += "%s CONST INT64 %d\n" % (name, v)
     for f in case.get("derived", []):
         t += derived_line(f) + "\n"
     open(os.path.join(d, "format"), "w").write(t)
@@ -112,7 +114,8 @@ class Spec:
         self.case = case
         self.foff = case.get("foff", 0) * case.get("spf", 1)
         self.raw = {r["name"]: r for r in case["raws"]}
-        self.der = {f["name"]: f for f in case.get("derived", [])}
+        self.der = {f["name"]: dict(f) for f in case.get("derived", [])}
+        self.const = dict(case.get("consts", {}))
         self.data = {r["name"]: list(r["vals"]) for r in case["raws"]}
         self.ptr = {r["name"]: self.foff for r in case["raws"]}
 
@@ -124,7 +127,9 @@ class Spec:
         g = self.der[f]; kd = g["kind"]
         if kd == "P": return self.val(g["in"], k + g["shift"])
         if kd == "L":
-            x = self.val(g["in"], k); return None if x is None else g["m"] * x + g["b"]
+            m = self.const[g["mc"]] if g.get("mc") else g["m"]
+            b = self.const[g["bc"]] if g.get("bc") else g["b"]
+            x = self.val(g["in"], k); return None if x is None else m * x + b
         if kd == "B":
             x = self.val(g["in"], k)
             return None if x is None else ((x % (1 << 64)) >> g["bitnum"]) & ((1 << g["numbits"]) - 1)
@@ -142,6 +147,16 @@ class Spec:
                 j -= 1
             return float("nan") if self.fl else 0      # _GD_FillZero(start, return_type)
         raise ValueError(kd)
+
+    def alter(self, o):
+        """apply a gd_alter_* / gd_put_constant op to the metadata"""
+        if o[0] == "C": self.const[o[1]] = o[2]; return
+        kind, f = o[1], o[2]; g = self.der[f]
+        if kind == "P": g.update({"in": o[3], "shift": o[4]})
+        elif kind == "L": g.update({"in": o[3], "m": o[4], "b": o[5], "mc": None, "bc": None})
+        elif kind == "B": g.update({"in": o[3], "bitnum": o[4], "numbits": o[5]})
+        elif kind == "M": g.update({"a": o[3], "b": o[4]})
+        elif kind == "X": g.update({"in": o[3], "cnt": o[4], "cval": o[5], "period": o[6]})
 
     fl = False     # is the return type of the read being evaluated a floating point / complex type
 
@@ -251,11 +266,13 @@ def op_line(op):
     if k == "r": return "r"
     if k == "x": return "x"
     if k == "p": return "p %s %s %d %s %s" % (op[1], op[2], op[3], op[4], " ".join(str(v) for v in op[5]))
+    if k == "a": return "a " + " ".join(str(v) for v in op[1:])
+    if k == "C": return "C %s %d" % (op[1], op[2])
     raise ValueError(op)
 
 
 def run_impl(exe, d, case, rw=False, timeout=20):
-    rw = rw or any(o[0] == "p" for o in case["ops"])
+    rw = rw or any(o[0] in "paC" for o in case["ops"])
     lines = ["o %d" % (1 if rw else 0)] + [op_line(o) for o in case["ops"]]
     rc, out = vlib.sh([exe, "-O", d], inp=("\n".join(lines) + "\n").encode(), timeout=timeout)
     res = []
@@ -272,7 +289,8 @@ def run_impl(exe, d, case, rw=False, timeout=20):
 def in_model(case, strict=True):
     if case["enc"] not in MODEL_ENC: return False
     if any(f["kind"] not in "PLBM" for f in case.get("derived", [])): return False
-    if any(o[0] in "pkx" for o in case["ops"]): return False
+    if any(o[0] in "pkxaC" for o in case["ops"]): return False
+    if any(f.get("mc") or f.get("bc") for f in case.get("derived", [])): return False
     # under an open limit _GD_InitRawIO may close and reopen the very file being used in the
     # middle of a call (LRU by time(NULL)); that resets codec state the model would keep, so such
     # histories are judged against the specification only (the theorems cover every CAuto choice)
@@ -336,6 +354,8 @@ def impl_canon(tokens):
         return "P %s" % tokens[1]
     if k == "p":
         return "E %s" % tokens[2] if int(tokens[2]) else "W %s" % tokens[1]
+    if k in "aC":
+        return "K" if int(tokens[1]) == 0 else "E %s" % tokens[2]
     return " ".join(tokens)
 
 
@@ -389,6 +409,7 @@ def gen_case(rng, encs=None, model_only=False):
     if nraw >= 2:
         raws[1]["vals"] = (raws[1]["vals"] + [1] * len(raws[0]["vals"]))[:len(raws[0]["vals"])]
     derived = []
+    consts = {}
     names = [r["name"] for r in raws]
     for j in range(rng.choice([0, 1, 2, 2, 3, 4])):
         k = rng.choice("PPPLBM")
@@ -403,7 +424,12 @@ def gen_case(rng, encs=None, model_only=False):
             plain = src in names or any(f["name"] == src and f.get("plain") for f in derived)
             derived.append(dict(name=nm, kind="P", shift=rng.choice([-1, -1, -2, -3, -7, 1, 1, 2, 5, 0]), plain=plain, **{"in": src}))
         elif k == "L":
-            derived.append(dict(name=nm, kind="L", m=rng.choice([-3, -1, 1, 2, 5]), b=rng.randint(-9, 9), **{"in": src}))
+            dl = dict(name=nm, kind="L", m=rng.choice([-3, -1, 1, 2, 5]), b=rng.randint(-9, 9), **{"in": src})
+            if not model_only and rng.random() < 0.3:
+                # scalar parameters taken from CONST fields (changed later by gd_put_constant)
+                dl["mc"] = "k%dm" % j; dl["bc"] = "k%db" % j
+                consts[dl["mc"]] = dl["m"]; consts[dl["bc"]] = dl["b"]
+            derived.append(dl)
         elif k == "B":
             derived.append(dict(name=nm, kind="B", bitnum=rng.randint(0, 4), numbits=rng.randint(1, 5), **{"in": src}))
         elif k == "M" and nraw >= 2:
@@ -418,7 +444,7 @@ def gen_case(rng, encs=None, model_only=False):
         derived.append(dict(name="mx", kind="X", cnt="r1", cval=rng.randint(0, 3), period=rng.choice([0, 0, 4]), **{"in": "r0"}))
         if rng.random() < 0.5:
             derived.append(dict(name="mxl", kind="L", m=2, b=1, **{"in": "mx"}))
-    case = dict(enc=enc, spf=spf, foff=foff, raws=raws, derived=derived)
+    case = dict(enc=enc, spf=spf, foff=foff, raws=raws, derived=derived, consts=consts)
     sp = Spec(case)
     fields = names + [f["name"] for f in derived]
     ops = []
@@ -456,10 +482,33 @@ def gen_case(rng, encs=None, model_only=False):
         if st != "H": last_read[f] = (st, len(sp.window(f, st, n)))
         return T
 
+    def gen_alter():
+        """a successful metadata change between reads: gd_alter_* of a derived field's inputs/parameters
+        (inputs chosen among earlier fields, so the graph stays acyclic) or gd_put_constant"""
+        if consts and rng.random() < 0.4:
+            o = ("C", rng.choice(sorted(consts)), rng.choice([-3, -2, -1, 1, 2, 3, 5]))
+        else:
+            j = rng.randrange(len(derived)); g = sp.der[derived[j]["name"]]; kd = g["kind"]
+            earlier = names + [x["name"] for x in derived[:j] if x["kind"] != "X" and not x["name"].startswith("mx")]
+            plain = names + [x["name"] for x in derived[:j] if x["kind"] == "P" and x.get("plain")]
+            if kd == "P": o = ("a", "P", g["name"], rng.choice(plain if g.get("plain") else earlier), rng.choice([-3, -1, 0, 1, 2, 4]))
+            elif kd == "L": o = ("a", "L", g["name"], rng.choice(earlier) if g["name"] != "mxl" else "mx", rng.choice([-2, 1, 3, 4]), rng.randint(-5, 5))
+            elif kd == "B": o = ("a", "B", g["name"], rng.choice(plain), rng.randint(0, 4), rng.randint(1, 5))
+            elif kd == "M":
+                a = rng.choice(["r0", "r1"]); b = rng.choice(["r0", "r1"])
+                if (a, b) == (g["a"], g["b"]): a, b = b, a
+                o = ("a", "M", g["name"], a, b)
+            elif kd == "X": o = ("a", "X", g["name"], g["cnt"] if rng.random() < 0.3 else g["in"], g["cnt"], rng.randint(0, 3), g["period"])
+            else: return
+        ops.append(o); sp.alter(o)
+        last_read.clear()
+
     for _ in range(nops):
         f = rng.choice(fields)
         e = sp.eof(f)
         u = rng.random()
+        if derived and not model_only and rng.random() < 0.06:
+            gen_alter(); continue
         if last_read and rng.random() < 0.15:
             # continue an earlier read of some field where it ended, in another return type
             # (a differently split window must give the same samples)
@@ -585,6 +634,11 @@ def judge_spec(case, res):
             fp = {}
         elif k == "r":
             if tok[1] != "0": bad.append((i, "r 0", " ".join(tok)))
+        elif k in "aC":
+            # a successful change of metadata: later reads reflect exactly that change
+            fp = {}
+            sp.alter(o)
+            if got != "K": bad.append((i, "K", got))
         elif k == "p":
             # gd_putdata on a RAW field of an in-place encoding: reads reflect exactly that change
             f, st, n, vals = o[1], o[2], o[3], o[5]
@@ -644,7 +698,7 @@ def mplex_line(case):
     """driver line for the MPLEX layer model (coq/C02/MplexCache.v) of field mx, or None when the history
     has calls the layer does not describe exactly (GD_HERE reads of mx, reads the return type cannot hold)"""
     g = [f for f in case.get("derived", []) if f["kind"] == "X"]
-    if not g: return None
+    if not g or any(o[0] in "aC" for o in case["ops"]): return None
     g = g[0]
     sp = Spec(case)
     if sp.shifted(g["in"]) or sp.shifted(g["cnt"]): return None
